@@ -1248,6 +1248,96 @@ static void release_epilogue(ctx_t *c)
 }
 
 /*
+ * Regrid epilogue: one unknown reflection (constant truth) is solved by
+ * three vnacal_new_t of the same vnacal_t in turn, on grids of the same
+ * length with other frequencies and of another length; after every solve
+ * the handle must answer at every frequency of the grid just solved with
+ * the solved value and refuse a frequency outside that grid.
+ */
+static void regrid_epilogue(ctx_t *c)
+{
+    static const struct { int nf; double f[3]; double outside; } grid[4] = {
+	{ 2, { 1.0e9, 2.0e9 }, 2.5e9 },
+	{ 2, { 1.5e9, 2.5e9 }, 1.0e9 },
+	{ 3, { 0.5e9, 1.0e9, 3.0e9 }, 3.5e9 },
+	{ 2, { 1.0e9, 2.0e9 }, 0.5e9 },
+    };
+    const cx base = 0.45 - 0.2 * I, truth_v = base + DELTA;
+    vnacal_new_t *vnp[4] = { NULL, NULL, NULL, NULL };
+    int s0 = vnacal_make_scalar_parameter(c->vcp, base);
+    int u = s0 >= 0 ? vnacal_make_unknown_parameter(c->vcp, s0) : -1;
+
+    if (u < 0) {
+	vf_fail(c->r, "probe:setup", "regrid epilogue: parameters");
+	goto out;
+    }
+    for (int k = 0; k < 4; ++k) {
+	static const cx std[3] = { 1, 0, -1 };
+	static const int sh[3] = { VNACAL_OPEN, VNACAL_MATCH, VNACAL_SHORT };
+	cx mv[3];
+	cx *mp[1] = { mv };
+	vnp[k] = vnacal_new_alloc(c->vcp, VNACAL_T8, 1, 1, grid[k].nf);
+	if (vnp[k] == NULL ||
+		vnacal_new_set_frequency_vector(vnp[k], grid[k].f) != 0 ||
+		vnacal_new_set_p_tolerance(vnp[k], 1e-9) != 0 ||
+		vnacal_new_set_et_tolerance(vnp[k], 1e-9) != 0) {
+	    vf_fail(c->r, "probe:setup", "regrid epilogue: vnacal_new_alloc");
+	    goto out;
+	}
+	for (int j = 0; j < 4; ++j) {
+	    for (int fi = 0; fi < grid[k].nf; ++fi)
+		mv[fi] = meas(0, fi & 1, j == 0 ? truth_v : std[j - 1]);
+	    if (vnacal_new_add_single_reflect_m(vnp[k], mp, 1, 1,
+			j == 0 ? u : sh[j - 1], 1) != 0) {
+		vf_fail(c->r, "probe:setup", "regrid epilogue: add standard");
+		goto out;
+	    }
+	}
+    }
+    for (int k = 0; k < 4 && c->r->status == VF_OK; ++k) {
+	int before = c->elog.nonwarn;
+	int rc = vnacal_new_solve(vnp[k]);
+	++c->r->transitions;
+	expect_ok(c, "vnacal_new_solve", rc, before);
+	if (rc != 0)
+	    goto out;
+	for (int fi = 0; fi < grid[k].nf; ++fi) {
+	    cx v = vnacal_get_parameter_value(c->vcp, u, grid[k].f[fi]);
+	    ++c->r->transitions;
+	    if (!(cabs(v - truth_v) <= TOL_LOOSE)) {
+		vf_fail(c->r, "wrong:vnacal_get_parameter_value", "regrid "
+			"epilogue: after solve %d on %d frequencies the "
+			"unknown reads %.9g%+.9gj at %g Hz (a frequency of "
+			"that solve), solved value %.9g%+.9gj", k + 1,
+			grid[k].nf, creal(v), cimag(v), grid[k].f[fi],
+			creal(truth_v), cimag(truth_v));
+		goto out;
+	    }
+	}
+	vf_errlog_reset(&c->elog);
+	cx v = vnacal_get_parameter_value(c->vcp, u, grid[k].outside);
+	++c->r->transitions;
+	if (creal(v) != HUGE_VAL) {
+	    vf_fail(c->r, "ghost:vnacal_get_parameter_value", "regrid "
+		    "epilogue: after solve %d the unknown answers %g%+gj at "
+		    "%g Hz, outside the grid just solved", k + 1, creal(v),
+		    cimag(v), grid[k].outside);
+	    goto out;
+	}
+	vf_errlog_reset(&c->elog);
+    }
+out:
+    for (int k = 0; k < 4; ++k)
+	if (vnp[k] != NULL)
+	    vnacal_new_free(vnp[k]);
+    if (u >= 0)
+	(void)vnacal_delete_parameter(c->vcp, u);
+    if (s0 >= 0)
+	(void)vnacal_delete_parameter(c->vcp, s0);
+    vf_errlog_reset(&c->elog);
+}
+
+/*
  * Third epilogue: the calibration table far beyond the BFS depth.  A fresh
  * solved 1x1 calibration is added under 12 new names (the table grows
  * 1 -> 8 -> 16), every other one is deleted, names are replaced and new
@@ -1504,6 +1594,10 @@ static void run_hist(int tier, const int *ops, int n, vf_result *r)
     if (r->status == VF_OK && n > 0) {
 	vf_errlog_reset(&c.elog);
 	release_epilogue(&c);
+    }
+    if (r->status == VF_OK && n > 0) {
+	vf_errlog_reset(&c.elog);
+	regrid_epilogue(&c);
     }
     if (r->status == VF_OK && n > 0) {
 	vf_errlog_reset(&c.elog);
